@@ -18,6 +18,7 @@ package transform
 
 import (
 	"fmt"
+	"strconv"
 
 	"github.com/compose-spec/compose-go/v2/tree"
 )
@@ -28,7 +29,14 @@ func transformUlimits(data any, p tree.Path, _ bool) (any, error) {
 		return v, nil
 	case int:
 		return v, nil
+	case string:
+		// the schema admits a string, typically the result of interpolation
+		i, err := strconv.Atoi(v)
+		if err != nil {
+			return data, fmt.Errorf("%s: invalid value %q for ulimits", p, v)
+		}
+		return i, nil
 	default:
-		return data, fmt.Errorf("%s: invalid type %T for external", p, v)
+		return data, fmt.Errorf("%s: invalid type %T for ulimits", p, v)
 	}
 }
